@@ -97,3 +97,10 @@ Definition data_static_ok (ns : list node) : Prop :=
    (Proofs/MatcherKindP.v derives this from parse_defs) *)
 Definition matches_kinded (indexed : bool) (defs : list ruledef) (ns : list node) : Prop :=
   forall i src m, In (NInstr i src) ns -> In m (match_instr indexed defs src) -> match_kinded defs m = true.
+
+(* data_static_ok as a boolean *)
+Definition data_static_okb (ns : list node) : bool :=
+  forallb (fun n => match n with
+                    | NData w el => forallb (fun de => negb (data_known (snd de)) || elem_strict_ok w (snd de)) el
+                    | _ => true
+                    end) ns.
